@@ -6,7 +6,7 @@ World: SW, refinement via worlds.swref.  The model's matcher
 and shares no code with ofp_match.
 """
 
-from simkit.rng import Rng
+from simkit.rng import Rng, mix
 from worlds import swref
 from checks import swgen as G
 from models import of10wire as W
@@ -60,6 +60,14 @@ def gen_plan(seed, tier):
     frames.append((G.gen_frame(r, rich=True, nhosts=r.pick([2, 4]),
                                trunc=True),
                    r.randint(1, nports)))
+  r4 = Rng(mix(seed, "dst"))
+  for fs, _ in frames:
+    # destination addresses the datapath gives special meaning elsewhere
+    # (spanning tree group and its neighbours, broadcast): to the table they
+    # are addresses like any other
+    if r4.chance(0.12):
+      fs["dst"] = r4.pick(["0180c2000000", "0180c2000000", "0180c2000001",
+                           "0180c200000e", "ffffffffffff", "01005e000001"])
   steps = []
   nent = r.randint(1, 12)
   for i in range(nent):
